@@ -6,7 +6,7 @@ From MMD.lib Require Import Bytes.
 From MMD.lib Require Import Lemon Utf8 XmlDfa.
 From MMD.gen Require Import ParserTables.
 From MMD.gen Require Import Escapers CharTable.
-From MMD.model Require Import DStringModel DStringSpec PoolModel TreeCheck LabelModel CriticModel TranscludeModel MetaModel.
+From MMD.model Require Import DStringModel DStringSpec PoolModel TreeCheck LabelModel CriticModel TranscludeModel MetaModel AnchorModel HeaderIdModel.
 From MMD.proofs Require Import EscaperProofs.
 Extraction Language OCaml.
 Extraction "mmdmodel.ml"
@@ -21,4 +21,6 @@ Extraction "mmdmodel.ml"
   Utf8.valid_utf8 XmlDfa.xml_safe
   CriticModel.critic_accept CriticModel.critic_reject CriticModel.critic_accept_range CriticModel.critic_reject_range
   TranscludeModel.transclude_top
-  MetaModel.meta_parse MetaModel.meta_value_for.
+  MetaModel.meta_parse MetaModel.meta_value_for
+  AnchorModel.export AnchorModel.wf_doc AnchorModel.forward_only AnchorModel.nocite_free
+  HeaderIdModel.header_id HeaderIdModel.header_span HeaderIdModel.manual_id HeaderIdModel.reference_label.
